@@ -258,7 +258,12 @@ class PythonRegex(regex.Regex):
         if not bracket_content or bracket_content[0] != "^":
             return bracket_content
         # We inverse everything
-        return [x for x in ESCAPED_PRINTABLES if x not in bracket_content]
+        excluded = bracket_content[1:]
+        res = [x for x in ESCAPED_PRINTABLES if x not in excluded]
+        if "\n" not in excluded and "\\n" not in excluded:
+            # The new line is not in ESCAPED_PRINTABLES
+            res.append("\n")
+        return res
 
     @staticmethod
     def _insert_or(l_to_modify):
